@@ -15,9 +15,13 @@ one SELECT or nested subqueries":
   * `join_of_selects_is_the_join`: joining two Selects - whose projections are stripped for the join and
     re-applied afterwards unless a hidden column would shadow a column of the other operand - yields
     exactly the natural join on the common columns plus the predicate of the *visible* rows: no value
-    comes from a column an upstream projection had removed.
+    comes from a column an upstream projection had removed;
+  * `join_factory_is_the_join`: `relation.join(rhs, predicate)` inside one SQL engine returns exactly the
+    join of the two relations on the automatically resolved common columns (columns of both) and the
+    predicate.
 -/
 import DafRel.Lemmas.ConformSound
+import DafRel.Props.C17
 
 namespace DafRel.Props.C02
 
@@ -27,7 +31,7 @@ theorem sql_tree_building_preserves_rows (σ : Leaves) (st : Store) (fuel : Nat)
     (hwf : t.WF) (htr : t.Truthful σ) (hraw : t.RawSql) (h : applyOp st fuel (.u op) t {} = .ok res) :
     (res.get t).WF ∧ sem σ (res.get t) = op.sem (op.appliedColumns t.columns) (sem σ t) ∧
       (∀ c, c ∈ (res.get t).columns ↔ c ∈ op.appliedColumns t.columns) :=
-  let F := ((treeBuild_sound σ st fuel).apply op t res (raw_good σ t hwf htr hraw) h).2
+  let F := ((treeBuild_sound σ st fuel).apply op t res (raw_good σ t hwf htr hraw) h).2.1
   ⟨F.wf, F.sem_eq, F.cols⟩
 
 theorem conformed_tree_has_same_rows (σ : Leaves) (st : Store) (fuel : Nat) (t : Rel) (res : Res)
@@ -55,5 +59,16 @@ theorem join_of_selects_is_the_join (σ : Leaves) (st : Store) (fuel fl fr : Nat
     (sub_congr _ _ _ c1.cols hcl) (sub_congr _ _ _ c2.cols hcr) (sub_congr _ _ _ hun hp)
     (by rw [c1.engine, c2.engine]; exact heng) res h
   exact ⟨S, hS, okS, by rw [semS, c1.sem_eq, c2.sem_eq], fun c => (colS c).trans (hun c)⟩
+
+theorem join_factory_is_the_join (σ : Leaves) (st : Store) (t rhs : Rel) (pred : Pred) (bt tr : Bool) (res : Res)
+    (hwt : t.WF) (htt : t.Truthful σ) (hrt : t.RawSql) (hwr : rhs.WF) (htr : rhs.Truthful σ) (hrr : rhs.RawSql)
+    (heng : rhs.engine = t.engine) (h : Rel.joinWith st t rhs pred bt tr = .ok res) :
+    ∃ common, common.subset rhs.columns = true ∧ common.subset t.columns = true ∧
+      sem σ (res.get t) = joinRows common pred (sem σ t) (sem σ rhs) ∧
+      (∀ c, c ∈ (res.get t).columns ↔ c ∈ t.columns.union rhs.columns) := by
+  obtain ⟨common, T, hT, _, semT, colT, _, c1, c2⟩ :=
+    Props.C17.sql_join_factory_sound σ st t rhs pred bt tr res hwt htt hrt hwr htr hrr heng h
+  subst hT
+  exact ⟨common, c1, c2, semT, colT⟩
 
 end DafRel.Props.C02
